@@ -745,6 +745,13 @@ fn replay_rule_on(
 /// finding.
 pub fn judge_step_budget(scn: &LoopScn, r: &RunResult) -> Vec<Violation> {
     let p = parse(r);
+    // A precision that is not the clock's step explains many an endless
+    // tuning phase; it is a violation of its own (C11), whatever the stop
+    // rule says about the rounds that ran.
+    let pv = precision_clause(scn, &p);
+    if !pv.is_empty() {
+        return pv;
+    }
     let t_eff = scn.eff_threads();
     let complete = (0..t_eff)
         .map(|t| p.by_thread.get(t).map_or(0, |x| x.iter().take_while(|s| s.complete()).count()))
@@ -1369,7 +1376,19 @@ pub fn check_c11(scn: &LoopScn, r: &RunResult, out: &LoopOut) -> Vec<Violation> 
             vs.push(v("duration_conversion", format!("Duration {:?} converted to {got} ps, expected {} ps", d, dur_picos(d))));
         }
     }
-    // Precision clause: uniform-step clock with 0 < read_cost <= step.
+    vs.extend(precision_clause(scn, &p));
+    let _ = (Shape::Z, PanicPhase::Gen);
+    vs.dedup();
+    vs
+}
+
+/// Precision clause: on a uniform-step clock with 0 < read_cost <= step the
+/// reported precision is the step. Evaluated on whatever history there is —
+/// also when the run did not get to its end (a wrong precision is a common
+/// reason for that: tuning compares against it).
+pub fn precision_clause(scn: &LoopScn, p: &Parsed) -> Vec<Violation> {
+    let mut vs = Vec::new();
+    let f = scn.clock.frequency;
     if let (Some(ps), None) = (p.precision, scn.precision_override) {
         let step = scn.clock.step.max(1);
         if scn.clock.read_cost > 0 && scn.clock.read_cost <= step && scn.clock_faults.is_empty() {
@@ -1382,7 +1401,5 @@ pub fn check_c11(scn: &LoopScn, r: &RunResult, out: &LoopOut) -> Vec<Violation> 
             }
         }
     }
-    let _ = (Shape::Z, PanicPhase::Gen);
-    vs.dedup();
     vs
 }
